@@ -64,6 +64,8 @@ try:
         print(f'  check {c}: exit {r.returncode}', viol[0] if viol else '', json.dumps(rep)[:300] if rep else '')
 finally:
     sh('git -C /repo checkout -- .')
+    # the translator's output under the change is not the unchanged tree's: put the committed one back
+    sh('git -C /verif checkout -- lean/PaneModel/Generated/Facts.lean')
     for c, text in ev_backup.items():
         open(f'/verif/evidence/{c}.json', 'w').write(text)
 meta['caught_by'] = [x['check'] for x in meta['ran'] if x['rc'] == 1]
